@@ -63,6 +63,7 @@ def check(program: Program, run: Run) -> None:
     run.rule("R2 qualifier emitted iff table and (with_namespace or alias); text = alias else table name; Field and Star agree")
     run.rule("R3 INSERT column list, SET targets, ON CONFLICT/ON DUPLICATE update targets: with_namespace Const False; USING fields built without a table")
     run.rule("R4 a name that only ever denotes methods is never used un-called as a truth value or comparison operand")
+    run.rule("R7 (inherited from C13/R5,R6) the foreign-table flag is written monotonically: no builder call assigns it from its own argument alone")
     run.rule("R6 (inherited from C17/R3) every rendered child is traversed by nodes_(): the foreign-table flag is computed from fields_(), which sees only what nodes_() yields")
     run.rule("R5 the foreign-table decision (_validate_table) identifies row sources by whole-object equality/membership over _from, _update_table and the joined items, never by a projection (name only) of the source")
     run.exhaustive = True
@@ -244,6 +245,29 @@ def check(program: Program, run: Run) -> None:
                         where=fd.where, rule="R6 (inherited from C17/R3)")
     if n6 < 60:
         raise AnalysisError(f"instance count below floor: traversal obligations {n6}")
+
+    # ---- R7: the foreign-table flag is sticky.  where()/prewhere() are called repeatedly and in any order; a call that
+    # assigns the flag from its own criterion alone clears what an earlier call recorded, and the statement loses its
+    # qualification.  Decided by C13's write-form analysis (R5/R6) restricted to the anchored flag.
+    from . import c13
+    sub13 = Run("C13", run.tier)
+    c13.check(program, sub13)
+    n7 = 0
+    for o in sub13.obligations:
+        if o.rule.startswith("C13/R5") and o.subject.endswith(":_foreign_table"):
+            n7 += 1
+            run.ob("C11/R7 (inherited from C13/R5) the foreign-table flag is only ever switched on by a builder call", o.subject, o.ok, o.detail, o.where)
+    for fd in sub13.findings:
+        if fd.info:
+            continue
+        if fd.key.startswith("C13/overwrite-in-accumulating:") and fd.key.endswith(":_foreign_table"):
+            run.finding("C11/foreign-flag-cleared:" + fd.key.split(":")[1], "the foreign-table flag recorded by an earlier call is overwritten, so a correlated statement is rendered unqualified: " + fd.what,
+                        where=fd.where, rule="R7 (inherited from C13/R5)")
+        elif fd.key.startswith("C13/last-call-wins:") and ":_foreign_table:" in fd.key:
+            run.finding("C11/foreign-flag-cleared:" + fd.key.split(":")[-1], "the foreign-table flag recorded by one clause is overwritten by the other, so a correlated statement is rendered unqualified: " + fd.what,
+                        where=fd.where, rule="R7 (inherited from C13/R6)")
+    if n7 < 2:
+        raise AnalysisError(f"anchor vanished: builder writes of the foreign-table flag {n7}")
 
     # ---- a memoised namespace decision is inherited by builders copied from a rendered one
     from ..families import memo_methods
